@@ -447,7 +447,7 @@ class Context:
                 and not isinstance(args[0], bool)
             ):
                 n = args[0]
-                if isinstance(n, float) and (math.isnan(n) or n != int(n)):
+                if isinstance(n, float) and math.isnan(n):
                     raise JSRangeError("Invalid array length")
                 arr = JSArray(_alloc_length(n, "array"))
             else:
